@@ -668,6 +668,15 @@ def r2_4(ctx, R, counter_field):
         for k, rb in enumerate(ready_none_blocks(ctx, b)):
             facts_here = vf.get(rb, frozenset())
             fwd = any(v == "None" for (_, v) in facts_here)
+            if not fwd:
+                # the inner answer may reach this return through the verdict of an inlined helper (a private `Step::Exhausted`):
+                # on every constant-feasible arrival some inner poll / drain result is known to be Ready(None)
+                from lib_flow import arrival_knowledge
+                try:
+                    ak = arrival_knowledge(b, fl, rb, const_feasible=True)
+                except RuntimeError:
+                    ak = []
+                fwd = bool(ak) and all(any(v_ == "None" and "as Ready).0" in p_ for p_, v_ in k_.items()) for k_ in ak)
             # alternatively: behind explicit emptiness tests of the inner collection and (ordered) the parked heap
             lv = set()
             for sb in range(b.n):
